@@ -40,10 +40,53 @@ RULE = ("random gridded forecasts of shape (1..40)x(1..8), rates 10^U(-12,3) (cl
         "magnitude bins, clustered on few bins (several per bin) or spread, N_obs classes 0, 1, ~N_fore, up to 50*N_fore, 300; "
         "with or without events in zero-rate bins; CL/S/M with injected random_numbers, L with injected numbers "
         "(one simulation, width = the seeded Poisson draw) and with a seed (stream replicated); 37% of forecasts hold data/c and are "
-        "scaled by c (GriddedDataSet.scale), 15% of catalogs put last-bin events far above the last magnitude edge. A case is non-trivial when "
+        "scaled by c (GriddedDataSet.scale), 15% of catalogs put last-bin events far above the last magnitude edge; 45% of the rate arrays "
+        "are not C-contiguous (Fortran order, transposed view, strided slices of larger arrays, negative strides); in 60% of the "
+        "catalogs a share of the events lies 1e-8..1e-4 below an upper magnitude / cell edge or exactly on a lower magnitude edge "
+        "(counted in the half-open bin that contains them). A case is non-trivial when "
         "some bin holds >= 2 events and N_obs != N_fore; distinct by (rate bits, counts).")
 
 MODES = ("L", "CL", "S", "M")
+# memory layouts of the forecast's 2-D rate array (same values, same shape): C-contiguous, Fortran-ordered, the transposed
+# view of a (mag, cell) table, non-contiguous slices of larger arrays (the surrounding memory holds other numbers),
+# reversed (negative strides) views
+LAYOUTS = ["F", "F", "T", "T", "slice-cols", "slice-rows", "slice-F", "rev", "rev-rows"]
+# distances below an upper bin / cell edge: outside the binning routine's round-off band, inside any "practically on the
+# edge" absolute tolerance someone might introduce
+EDGE_DELTAS = [1e-6, 1e-6, 4e-6, 5e-6, 9e-6, 2e-6, 1e-5, 3e-5, 1e-4, 1e-7, 1e-8]
+_FILL = 12345.678
+
+
+def _with_layout(data, layout):
+    """a new array equal to `data` element by element, with the requested memory layout"""
+    data = numpy.asarray(data, dtype=float)
+    ns, nm = data.shape
+    if layout == "C":
+        a = data.copy()
+    elif layout == "F":
+        a = numpy.asfortranarray(data.copy())
+    elif layout == "T":
+        a = numpy.ascontiguousarray(data.T).T
+    elif layout == "slice-cols":
+        big = numpy.full((ns, 2 * nm + 1), _FILL)
+        big[:, 1::2] = data
+        a = big[:, 1::2]
+    elif layout == "slice-rows":
+        big = numpy.full((2 * ns + 1, nm + 1), _FILL)
+        big[1::2, :nm] = data
+        a = big[1::2, :nm]
+    elif layout == "slice-F":
+        big = numpy.full((ns + 2, nm + 3), _FILL, order="F")
+        big[1:ns + 1, 2:nm + 2] = data
+        a = big[1:ns + 1, 2:nm + 2]
+    elif layout == "rev":
+        a = data[::-1, ::-1].copy()[::-1, ::-1]
+    elif layout == "rev-rows":
+        a = data[::-1, :].copy()[::-1, :]
+    else:
+        raise ValueError(layout)
+    assert a.shape == data.shape and numpy.array_equal(a, data)
+    return a
 
 
 # ----------------------------------------------------------------------------- helpers
@@ -159,13 +202,20 @@ def _gen_spec(rng, tier):
             data[q // nm, q % nm] = 10.0 ** rng.uniform(-12, 3)
         chosen = [c for c in chosen if data[c] > 0 or allow_zero] + [forced]
     events = []
+    # share of events placed a little BELOW the upper edge of their magnitude bin / cell (outside the round-off band of the
+    # binning routine, which is ~1e-14 here, but within 1e-4 of the edge) or exactly ON the lower magnitude edge
+    edge_share = rng.choice([0.0, 0.0, 0.1, 0.3, 1.0])
     for e in range(n):
         i, j = forced if (forced is not None and e == 0) else rng.choice(chosen)
-        events.append((i, j, rng.uniform(0.2, 0.8), rng.uniform(0.2, 0.8), rng.uniform(0.2, 0.8)))
+        ev = [i, j, rng.uniform(0.2, 0.8), rng.uniform(0.2, 0.8), rng.uniform(0.2, 0.8)]
+        if rng.random() < edge_share:
+            ev.append(rng.choice(["m", "m", "m", "m", "x", "y", "xy", "xym", "mon"]) + ":" + repr(rng.choice(EDGE_DELTAS)))
+        events.append(ev)
     nx = rng.randint(1, ns)
     spec = dict(
         ns=ns, nm=nm, cls=cls, ncls=ncls, data=[[float(x).hex() for x in row] for row in data],
-        events=[[i, j, fx.hex(), fy.hex(), fm.hex()] for i, j, fx, fy, fm in events],
+        events=[[e[0], e[1], e[2].hex(), e[3].hex(), e[4].hex()] + e[5:] for e in events],
+        layout=rng.choice(LAYOUTS) if rng.random() < 0.45 else "C",
         nx=nx, dh=rng.choice([0.1, 0.5, 1.0]), x0=float(rng.randint(-20, 20)), y0=float(rng.randint(-20, 20)),
         m0=rng.choice([2.5, 4.0, 4.95]), dm=rng.choice([0.1, 0.5, 1.0]),
         nsim=rng.choice([1, 2, 3]) if tier == "quick" else rng.choice([1, 2, 3, 5]),
@@ -185,21 +235,42 @@ def _build(spec):
     mags = [spec["m0"] + spec["dm"] * k for k in range(nm)]
     region = CartesianGrid2D.from_origins(origins, dh=dh, magnitudes=mags)
     c = spec.get("fscale")
+    layout = spec.get("layout", "C")
     if c:
         # the forecast holds data/c and is scaled by c (GriddedDataSet.scale): the rates under test are `fore.data`
-        fore = GriddedForecast(data=data / c, region=region, magnitudes=mags, name="forecast").scale(c)
+        fore = GriddedForecast(data=_with_layout(data / c, layout), region=region, magnitudes=mags, name="forecast").scale(c)
         data = numpy.array(fore.data, dtype=float)
     else:
-        fore = GriddedForecast(data=data.copy(), region=region, magnitudes=mags, name="forecast")
+        # the forecast's array and the harness's array are two separate arrays with the same values and memory layout
+        fore = GriddedForecast(data=_with_layout(data, layout), region=region, magnitudes=mags, name="forecast")
+        data = _with_layout(data, layout) if layout != "C" else data.copy()
     cnt = numpy.zeros((ns, nm), dtype=int)
     ev = []
-    for k, (i, j, fx, fy, fm) in enumerate(spec["events"]):
-        fx, fy, fm = float.fromhex(fx), float.fromhex(fy), float.fromhex(fm)
+    for k, e in enumerate(spec["events"]):
+        i, j = e[0], e[1]
+        fx, fy, fm = float.fromhex(e[2]), float.fromhex(e[3]), float.fromhex(e[4])
         lon = origins[i, 0] + dh * fx
         lat = origins[i, 1] + dh * fy
         mag = mags[j] + spec["dm"] * fm
         if spec.get("open_mag") and j == nm - 1:
             mag = mags[j] + spec["dm"] * (1.0 + 4.0 * fm)   # the last magnitude bin is open-ended
+        if len(e) > 5:
+            # an event a little below the upper edge of its magnitude bin / cell (or exactly on the lower magnitude edge):
+            # by the half-open bins [m_k, m_k+1), [x, x + dh) it belongs to bin (i, j) in every test
+            axes, d = e[5].split(":")
+            d = float(d)
+            if axes == "mon":
+                mag = mags[j]
+            elif "m" in axes:
+                mag = (mags[j + 1] if j + 1 < nm else mags[j] + spec["dm"]) - d
+            if "x" in axes:
+                lon = (origins[i, 0] + dh) - d
+            if "y" in axes:
+                lat = (origins[i, 1] + dh) - d
+            band = 1e-10   # far above the routine's round-off band (~1e-14 for these magnitudes / coordinates)
+            assert mags[j] <= mag and (j + 1 >= nm or mag < mags[j + 1] - band), (mag, mags, j)
+            assert origins[i, 0] + band < lon < origins[i, 0] + dh - band and \
+                origins[i, 1] + band < lat < origins[i, 1] + dh - band, (lon, lat, origins[i], dh)
         ev.append((str(k), 1000 * k, lat, lon, 10.0, mag))
         cnt[i, j] += 1
     cat_region = fore.region if spec["same_region"] else CartesianGrid2D.from_origins(origins, dh=dh, magnitudes=mags)
@@ -250,6 +321,13 @@ def _eval_case(run, drv, pending, spec, tag="gen"):
     run.count(f"rates-{spec['cls']}")
     run.count(f"nobs-{spec['ncls']}")
     run.count(f"shape-{'1' if ns == 1 else 'n'}x{'1' if nm == 1 else 'm'}")
+    run.count(f"layout-{spec.get('layout', 'C')}")
+    nedge = sum(1 for e in spec["events"] if len(e) > 5)
+    if nedge:
+        run.count("catalog-with-edge-events")
+        for e in spec["events"]:
+            if len(e) > 5:
+                run.count("edge-event-" + e[5].split(":")[0])
     tests = {"L": pe.likelihood_test, "CL": pe.conditional_likelihood_test, "S": pe.spatial_test, "M": pe.magnitude_test}
     calls = [("CL", "inject"), ("S", "inject"), ("M", "inject"), ("L", "inject1"), ("L", "seed")]
     for mode, how in calls:
@@ -379,7 +457,9 @@ def run(run, rng, tier):
             _flush(run, drv, pending)
             drv = Driver()
     _flush(run, drv, pending)
-    run.assumptions.append("events are generated at interior points of cells / magnitude bins (edge assignment is C01/C02)")
+    run.assumptions.append("events lie at interior points of cells / magnitude bins, at 1e-8..1e-4 below an upper edge, or exactly on a "
+                           "lower magnitude edge; never inside the binning routine's round-off band just below an edge (~1e-14 "
+                           "here; which bin such a point gets is C01/C02's subject)")
     run.assumptions.append("injected random numbers lie in [0, 1)")
 
 
